@@ -1,17 +1,147 @@
 import Mathlib.Algebra.Module.BigOperators
 import Mathlib.Algebra.BigOperators.Group.Finset.Basic
 import Mathlib.Algebra.Field.Defs
+import Mathlib.Data.ZMod.Basic
 import BronVerif.Model.LinAlg
+import BronVerif.Lemmas.GaussJordanSolve
+import BronVerif.Lemmas.FpField
+import Mathlib.Tactic.NormNum.Prime
 /-!
 # C20 — interpolation and linear algebra over the scalar fields are exact (property theorems)
+
+The linear-solver theorems are about the very definitions the driver executes
+(`Model/LinAlg.lean`: `solveAugmented`, `solveRight`, `solveLeft`, mirroring
+`pkg/base/mat/solver.go`), for an arbitrary field `F`.  `Lemmas/FpField.lean` shows that the
+executable `Fp p` is such a field.  Matrices are lists of rows; `dot`, `mulVec`, `vecMul`,
+`transposeN` are the model's own operations.
 -/
 namespace BronVerif.Props.C20
-open BigOperators
+open BigOperators BronVerif.LinAlg
 
 /-- computations "in the exponent" commute with lifting: `Σ cᵢ • (yᵢ • g) = (Σ cᵢ yᵢ) • g` -/
 theorem exponent_commutes {ι F G : Type*} [Field F] [AddCommGroup G] [Module F G]
     (s : Finset ι) (c y : ι → F) (g : G) :
     ∑ i ∈ s, c i • (y i • g) = (∑ i ∈ s, c i * y i) • g := by
   simp [Finset.sum_smul, mul_smul]
+
+variable {F : Type} [Field F] [DecidableEq F]
+
+/-- **Soundness of the mirrored Gauss–Jordan solver**: if `solveAugmented` returns `x` for the
+augmented matrix `aug = [A | b]` (every row has `numVars + 1` entries) then `x` has `numVars`
+entries and satisfies every row, i.e. `A x = b`. -/
+theorem solveAugmented_sound (aug : Mat F) (numVars : ℕ)
+    (hW : ∀ row ∈ aug, row.length = numVars + 1) (x : List F)
+    (h : solveAugmented aug numVars = some x) :
+    x.length = numVars ∧ ∀ row ∈ aug, dot (row.take numVars) x = row.getD numVars 0 := by
+  obtain ⟨hx, hev⟩ := solveAugmented_some_ev aug numVars hW x h
+  exact ⟨hx, (solves_iff_ev aug numVars x hx).mpr hev⟩
+
+/-- **Completeness**: `solveAugmented` answers "inconsistent" only if the system `A x = b` has no
+solution at all. -/
+theorem solveAugmented_complete (aug : Mat F) (numVars : ℕ)
+    (hW : ∀ row ∈ aug, row.length = numVars + 1) (h : solveAugmented aug numVars = none) :
+    ¬ ∃ x : List F, x.length = numVars ∧
+      ∀ row ∈ aug, dot (row.take numVars) x = row.getD numVars 0 := by
+  rintro ⟨x, hx, hsol⟩
+  exact solveAugmented_none_ev aug numVars hW h x ((solves_iff_ev aug numVars x hx).mp hsol)
+
+/-- `SolveRight` is sound: a returned `x` satisfies `M x = b`. -/
+theorem solveRight_sound (m : Mat F) (n : ℕ) (b : List F) (hm : ∀ row ∈ m, row.length = n)
+    (hb : b.length = m.length) (x : List F) (h : solveRight m n b = some x) :
+    x.length = n ∧ mulVec m x = b := by
+  obtain ⟨hx, hs⟩ := solveAugmented_sound _ n (augmented_width m n b hm) x h
+  exact ⟨hx, (augmented_solves_iff m n b x hm hb).mp hs⟩
+
+/-- `SolveRight` is complete: it fails only if `M x = b` is unsolvable. -/
+theorem solveRight_complete (m : Mat F) (n : ℕ) (b : List F) (hm : ∀ row ∈ m, row.length = n)
+    (hb : b.length = m.length) (h : solveRight m n b = none) :
+    ¬ ∃ x : List F, x.length = n ∧ mulVec m x = b := by
+  rintro ⟨x, hx, hs⟩
+  exact solveAugmented_complete _ n (augmented_width m n b hm) h
+    ⟨x, hx, (augmented_solves_iff m n b x hm hb).mpr hs⟩
+
+/-- `SolveLeft` is sound: a returned `x` has one entry per row of `M` and `x · M = r`, written with
+the explicit `n`-column transpose (`(x·M)_j = Σ_i x_i M_ij`). -/
+theorem solveLeft_sound (m : Mat F) (n : ℕ) (r : List F) (hr : r.length = n) (x : List F)
+    (h : solveLeft m n r = some x) :
+    x.length = m.length ∧ mulVec (transposeN m n) x = r :=
+  solveRight_sound (transposeN m n) m.length r (transposeN_width m n)
+    (by simp [transposeN, hr]) x h
+
+/-- `SolveLeft` is complete: it fails only if no `x` with `x · M = r` exists. -/
+theorem solveLeft_complete (m : Mat F) (n : ℕ) (r : List F) (hr : r.length = n)
+    (h : solveLeft m n r = none) :
+    ¬ ∃ x : List F, x.length = m.length ∧ mulVec (transposeN m n) x = r :=
+  solveRight_complete (transposeN m n) m.length r (transposeN_width m n)
+    (by simp [transposeN, hr]) h
+
+/-- the same in terms of the model's `vecMul` (which takes the column count from the first row) -/
+theorem solveLeft_sound_vecMul (m : Mat F) (n : ℕ) (r : List F) (hn : numCols m = n)
+    (hr : r.length = n) (x : List F) (h : solveLeft m n r = some x) :
+    x.length = m.length ∧ vecMul x m = r := by
+  subst hn; exact solveLeft_sound m _ r hr x h
+
+theorem solveLeft_complete_vecMul (m : Mat F) (n : ℕ) (r : List F) (hn : numCols m = n)
+    (hr : r.length = n) (h : solveLeft m n r = none) :
+    ¬ ∃ x : List F, x.length = m.length ∧ vecMul x m = r := by
+  subst hn; exact solveLeft_complete m _ r hr h
+
+/-! ### non-vacuity: concrete systems over `ZMod 7` -/
+
+/-- `x + 2y = 3, 3x + y = 2` has the unique solution `(3, 0)`… evaluated by the model -/
+example : solveAugmented (F := ZMod 7) [[1, 2, 3], [3, 1, 2]] 2 = some [3, 0] := by decide +kernel
+/-- an inconsistent system: `x + 2y = 3, 2x + 4y = 0` -/
+example : solveAugmented (F := ZMod 7) [[1, 2, 3], [2, 4, 0]] 2 = none := by decide +kernel
+/-- a rank-deficient consistent system with a free variable (set to zero) -/
+example : solveAugmented (F := ZMod 7) [[0, 2, 4], [0, 1, 2]] 2 = some [0, 2] := by decide +kernel
+example : ∀ row ∈ ([[1, 2, 3], [3, 1, 2]] : Mat (ZMod 7)), row.length = 2 + 1 := by decide
+example : solveRight (F := ZMod 7) [[1, 2], [3, 1]] 2 [3, 2] = some [3, 0] := by decide +kernel
+example : solveRight (F := ZMod 7) [[1, 2], [2, 4]] 2 [3, 0] = none := by decide +kernel
+example : solveLeft (F := ZMod 7) [[1, 3], [2, 1]] 2 [3, 2] = some [3, 0] := by decide +kernel
+example : solveLeft (F := ZMod 7) [[1, 2], [2, 4]] 2 [3, 0] = none := by decide +kernel
+example : numCols ([[1, 3], [2, 1]] : Mat (ZMod 7)) = 2 := by decide
+
+/-! ### the executable field `Fp p`
+
+`Lemmas/FpField.lean` builds `Field (Fp p)` from the executable operations, so the theorems above
+apply verbatim to the model as the driver instantiates it (instances `Fp.instMul`, `Fp.instSub`,
+`Fp.instInvOfNeZeroNat` = Fermat inverse, …). -/
+section Fp
+open BronVerif.Fp
+variable {p : ℕ} [Fact p.Prime]
+
+/-- the field structure on `Fp p` computes with the executable operations: the solver taken at
+the `Field`-derived notation *is* the solver the driver runs (definitional equality) -/
+theorem solveAugmented_Fp_instances :
+    @solveAugmented (Fp p) Fp.instMul Fp.instSub Fp.instInvOfNeZeroNat Fp.instOfNatOfNeZeroNat
+      Fp.instDecidableEq =
+    @solveAugmented (Fp p) instField.toMul instField.toSub instField.toInv Zero.toOfNat0
+      Fp.instDecidableEq := rfl
+
+/-- soundness of `SolveRight` over the executable prime field, stated with the driver's
+instances (`x.length = n ∧ M x = b`) -/
+theorem solveRight_sound_Fp (m : Mat (Fp p)) (n : ℕ) (b : List (Fp p))
+    (hm : ∀ row ∈ m, row.length = n) (hb : b.length = m.length) (x : List (Fp p))
+    (h : @solveRight (Fp p) Fp.instMul Fp.instSub Fp.instInvOfNeZeroNat Fp.instOfNatOfNeZeroNat
+      Fp.instDecidableEq m n b = some x) :
+    x.length = n ∧
+      @mulVec (Fp p) Fp.instAdd Fp.instMul Fp.instOfNatOfNeZeroNat m x = b :=
+  solveRight_sound m n b hm hb x h
+
+/-- completeness of `SolveRight` over the executable prime field -/
+theorem solveRight_complete_Fp (m : Mat (Fp p)) (n : ℕ) (b : List (Fp p))
+    (hm : ∀ row ∈ m, row.length = n) (hb : b.length = m.length)
+    (h : @solveRight (Fp p) Fp.instMul Fp.instSub Fp.instInvOfNeZeroNat Fp.instOfNatOfNeZeroNat
+      Fp.instDecidableEq m n b = none) :
+    ¬ ∃ x : List (Fp p), x.length = n ∧
+      @mulVec (Fp p) Fp.instAdd Fp.instMul Fp.instOfNatOfNeZeroNat m x = b :=
+  solveRight_complete m n b hm hb h
+
+local instance : Fact (Nat.Prime 7) := ⟨by norm_num⟩
+
+example : solveRight (F := Fp 7) [[1, 2], [3, 1]] 2 [3, 2] = some [3, 0] := by decide +kernel
+example : solveRight (F := Fp 7) [[1, 2], [2, 4]] 2 [3, 0] = none := by decide +kernel
+example : (3 : Fp 7)⁻¹ = 5 := by decide +kernel
+end Fp
 
 end BronVerif.Props.C20
